@@ -41,3 +41,20 @@ func VerifCert(instance uint64, j int) *certs.FinalityCertificate {
 func VerifTable(j int) gpbft.PowerEntries { return verifTableSeq(j) }
 
 func VerifCertEq(a, b *certs.FinalityCertificate) bool { return verifCertEq(a, b) }
+
+// VerifNewStoreWith: a store over the in-memory datastore model created at
+// `first` with the given initial table and holding the given certificates.
+func VerifNewStoreWith(first uint64, initial gpbft.PowerEntries, cl ...*certs.FinalityCertificate) *Store {
+	ctx := context.Background()
+	cs, err := CreateStore(ctx, newVerifDS(), first, initial)
+	if err != nil {
+		panic(err)
+	}
+	cs.powerTableFrequency = 2
+	for _, c := range cl {
+		if err := cs.Put(ctx, c); err != nil {
+			panic(err)
+		}
+	}
+	return cs
+}
